@@ -103,7 +103,7 @@ def handle : List String → Option String
         some s!"decode=ok | ops={ops.length} stops={st.stops} endstop={boolStr st.endsWithStop} trailing={st.trailing} | infos-mismatch {infos.length}"
       else
         let b := checkBounds env ops infos
-        let t := execTagged env init ops infos ++ constSourceProblems env ops infos
+        let t := execTagged env init ops infos ++ constSourceProblems env ops infos ++ lutSideProblems ops infos
         some s!"decode=ok | ops={ops.length} stops={st.stops} endstop={boolStr st.endsWithStop} trailing={st.trailing} | bounds={b.length} {firstFew b} | tagged={t.length} {firstFew t}"
   | "inferencecheck" :: toks => do
     -- whole-inference tagged execution: `inferencecheck shram= lutbase= ext= init= step=… step=…`
